@@ -23,7 +23,9 @@ EXTENDS Naturals, Sequences, FiniteSets, TLC, Json
 
 CONSTANTS Budget,    \* total weight a derivation may spend
           MaxW,      \* maximal number of elements of a collection / arguments / batch children
-          Emit       \* TRUE: print every complete sentence as a JSON row
+          Emit,      \* TRUE: print every complete sentence as a JSON row
+          Start      \* start symbol: "Stmt" (every statement kind) or "Mutation" (INSERT/UPDATE/DELETE/BATCH only;
+                     \* used by the random deep derivations, which would otherwise mostly end in one step)
 
 VARIABLES ast,       \* the tree derived so far
           w          \* weight still available
@@ -103,6 +105,7 @@ ArithOps == {"colplus", "colminus", "termpluscol", "pluseq", "minuseq"}
 
 Prods(nt) ==
     CASE nt = "Stmt"    -> StmtProds
+      [] nt = "Mutation" -> DmlProds \cup BatchProds
       [] nt = "Child"   -> DmlProds
       [] nt = "Term"    -> TermProds
       [] nt = "FnArg"   -> FnArgProds
@@ -127,7 +130,7 @@ Prods(nt) ==
       [] nt = "If"      -> {P(0, None), P(1, Leaf("if", "exists")), P(1, N("if", "cond", <<H("Term")>>))}
       [] nt = "DelOps"  -> {P(n, N("delops", "", Holes("DelOp", n))) : n \in 0..MaxW}
       [] nt = "DelOp"   -> {P(0, Leaf("delop", "col")), P(1, Leaf("delop", "field")),
-                            P(1, N("delop", "idx", <<H("Term")>>))}
+                            P(0, N("delop", "idx", <<H("Term")>>))}
 
 -----------------------------------------------------------------------------
 (* Derivation.                                                                            *)
@@ -149,7 +152,7 @@ Fill(t, r) ==
 
 Complete(t) == ~HasHole(t)
 
-Init == ast = H("Stmt") /\ w = Budget
+Init == ast = H(Start) /\ w = Budget
 
 Derive ==
     /\ HasHole(ast)
